@@ -197,10 +197,10 @@ def run_fista_converged(p, x0, eps=0.0, lr=None, arrays=None):
 # A fourth one (round 5): fista(ridge_coef=None) raised TypeError although the docstring offers `float or None`; repaired by ae57725
 # (Example C13_fista_ridge_none_before_ae57725; the entry-call cases C'' pass ridge_coef=None on every run).
 # A fifth one (round 7, found when the whole function admm was modelled): admm(n_const=1, <constraint>) with `order` left at its default
-# None raises TypeError (validate_constraints indexes its lists with None) although the docstring recommends exactly this call outside
-# constrained_parafac -> known finding admm_order_none (candidate repair build/fix_candidates/C13_admm_order_none.diff).
+# None raised TypeError; repaired by /repo a5b9e5b (Example C13_admm_order_none_before_a5b9e5b).  Open: admm(n_iter_max=0) raises
+# UnboundLocalError (x_split never bound) -> known finding admm_zero_iterations (candidate build/fix_candidates/C13_admm_zero_iterations.diff).
 from harness.props import C13_admm
-CLASSIFIERS = {"admm_order_none": C13_admm.clf_admm_order_none}
+CLASSIFIERS = {"admm_zero_iterations": C13_admm.clf_admm_zero_iterations}
 
 
 def _load_known_with_own_snippet():
@@ -260,8 +260,8 @@ def inputs_json(p, **kw):
 # ----------------------------------------------------------------------------- case generation
 def tiers(tier):
     if tier == "quick":
-        return dict(nprob=30, npass=40, nfista=24, nas=56, nadmm=10, aswarm=80, ncold=12, nfista2=10, nseq=8, ncall=8, nadmmloop=16, nadmmpred=12, nadmmnn=6)
-    return dict(nprob=240, npass=400, nfista=160, nas=640, nadmm=60, aswarm=1500, ncold=100, nfista2=80, nseq=80, ncall=48, nadmmloop=100, nadmmpred=100, nadmmnn=40)
+        return dict(nprob=30, npass=40, nfista=24, nas=56, nadmm=10, aswarm=80, ncold=12, nfista2=10, nseq=8, ncall=8, nadmmloop=16, nadmmpred=12, nadmmnn=6, nasfb=8)
+    return dict(nprob=240, npass=400, nfista=160, nas=640, nadmm=60, aswarm=1500, ncold=100, nfista2=80, nseq=80, ncall=48, nadmmloop=100, nadmmpred=100, nadmmnn=40, nasfb=80)
 
 
 def dyadic_start(rng, r, n, kind):
@@ -313,38 +313,9 @@ def fista_betas(K):
     return betas
 
 
-def union_print_assumptions(prop, names):
-    """Print Assumptions asked ONCE for a term that mentions every property theorem (one walk through the Reals library instead of one
-    per theorem: ~1.5 CPU-s instead of ~0.8 s x 80; same device as harness/props/C12.py).  The answer is the union of the theorems'
-    axioms; when it contains nothing but standard-library axioms every theorem is clean and each is reported with that union (an
-    over-approximation of its own list).  Otherwise -- or if the question cannot be asked (a theorem is missing) -- the per-theorem
-    question of common.print_assumptions is asked instead."""
-    import os, re, shutil, subprocess
-    d = os.path.join(C.BUILD, "pa", f"{os.getpid()}_{prop}_union"); shutil.rmtree(d, ignore_errors=True); os.makedirs(d, exist_ok=True)
-    fn = os.path.join(d, f"PAU_{prop}.v")
-    with open(fn, "w") as f:
-        f.write(f"From TLV Require Import Props.{prop}.\n")
-        f.write("Definition all_property_theorems : True :=\n" + "".join(f"  let _ := @{n} in\n" for n in names) + "  I.\n")
-        f.write('Goal True. idtac "@@BEGIN". exact I. Qed.\nPrint Assumptions all_property_theorems.\nGoal True. idtac "@@END". exact I. Qed.\n')
-    r = subprocess.run(["timeout", "600", "coqc", "-R", os.path.join(C.COQ, "theories"), "TLV", fn], capture_output=True, text=True, cwd=d)
-    shutil.rmtree(d, ignore_errors=True)
-    if r.returncode == 0 and "@@BEGIN" in r.stdout and "@@END" in r.stdout:
-        body = r.stdout.split("@@BEGIN", 1)[1].split("@@END")[0]
-        if "Closed under the global context" in body:
-            return {n: [] for n in names}, r.stdout
-        axs = sorted(a for a in set(re.findall(r"^([A-Za-z_][\w.']*)\s*:", body, re.M)) if a not in ("Axioms", "Variables", "Hypotheses"))
-        if axs and not C.own_axioms(axs):
-            return {n: list(axs) for n in names}, r.stdout
-    return _common_print_assumptions(prop, names)
-
-
-_common_print_assumptions = C.print_assumptions
-
-
 def run(chk):
     rng = random.Random(chk.seed)
     _load_known_with_own_snippet()
-    C.print_assumptions = union_print_assumptions
     chk.build_proofs()
     # common.print_assumptions parses the header line "Axioms:" of Print Assumptions as an axiom called 'Axioms'
     # (reported to the coordinator); drop exactly that pseudo-entry, keep every real one
@@ -926,6 +897,8 @@ def run(chk):
     C13_admm.run_cases(chk, rng, T["nadmmloop"], admm, add_case, gen_problem, dyadic_start, impl_call, mat_lit, Skip)
     C13_admm.run_predicates(chk, rng, T["nadmmpred"], admm, gen_problem, dyadic_start, impl_call, Skip)
     C13_admm.run_nonneg_predicates(chk, rng, T["nadmmnn"], admm, gen_problem, dyadic_start, impl_call, Skip)
+    # ---------------- G. active_set_nnls on semidefinite problems with an exactly singular block: the `except:` path
+    C13_admm.run_aset_fallback(chk, rng, T["nasfb"], active_set_nnls, add_case, impl_call, vec_lit, mat_lit, Skip, EP_AS)
 
     # ---------------- evaluate the correspondence inside Coq
     failing, n_eval, broken = C.run_case_shards("C13", HEADER, "case", cases, shard=24 if chk.tier == "quick" else 30, timeout=3000)
